@@ -69,5 +69,62 @@ func satisfierCrossCheck(c *ProcCase, cm *Node) string {
 			return fmt.Sprintf("after event #%d every definition has been matched exactly %d times but the satisfier fired %d times (history %v)", k, min, fires, c.Events)
 		}
 	}
+	return throwSatisfierCrossCheck(c, cm)
+}
+
+// throwSatisfierCrossCheck: the throw-event counterpart over the same definitions and history. A throw
+// event with several definitions always behaves like the parallel-multiple case.
+func throwSatisfierCrossCheck(c *ProcCase, cm *Node) string {
+	var el *schema.IntermediateThrowEvent
+	procs := c.defs.Processes()
+	for i := range *procs {
+		tes := (*procs)[i].IntermediateThrowEvents()
+		for j := range *tes {
+			if id, ok := (*tes)[j].Id(); ok && *id == "TH" {
+				el = &(*tes)[j]
+			}
+		}
+	}
+	if el == nil {
+		return ""
+	}
+	sat := logic.NewThrowEventSatisfier(el, event.WrappingDefinitionInstanceBuilder)
+	counts := make([]int, len(cm.Events))
+	fires := 0
+	for k, ep := range c.Events {
+		ok, _ := sat.Satisfy(mkEvent(ep.Kind, ep.Ref))
+		idx := -1
+		for i, d := range cm.Events {
+			if d.Kind == ep.Kind && d.Ref == ep.Ref {
+				idx = i
+				break
+			}
+		}
+		if idx < 0 {
+			if ok {
+				return fmt.Sprintf("throw satisfier: event #%d (%s %s) matches no definition but it fired", k, ep.Kind, ep.Ref)
+			}
+			continue
+		}
+		counts[idx]++
+		if ok {
+			fires++
+		}
+		min, max := counts[0], counts[0]
+		for _, n := range counts {
+			if n < min {
+				min = n
+			}
+			if n > max {
+				max = n
+			}
+		}
+		if fires > min {
+			return fmt.Sprintf("throw satisfier: after event #%d it has fired %d times although the least-matched definition was matched %d times (matches %v, history %v)", k, fires, min, counts, c.Events)
+		}
+		if min == max && fires != min {
+			return fmt.Sprintf("throw satisfier: after event #%d every definition has been matched exactly %d times but it fired %d times (history %v)", k, min, fires, c.Events)
+		}
+	}
 	return ""
 }
